@@ -285,7 +285,7 @@ Fixpoint strip_prefix (p l : bytes) : option bytes :=
   | _ :: _, [] => None
   end.
 
-(* after "BEGIN [brand ]": SALTPACK <type> ?\.([a-zA-Z0-9 ]*)  — returns (type label, body prefix) *)
+(* after BEGIN and the optional brand: SALTPACK, a type label, an optional space, the period and the longest run of alphanumerics and spaces; returns (type label, body prefix) *)
 Definition match_after_brand (l : bytes) : option (bytes * bytes) :=
   match strip_prefix (format_upper ++ [sp]) l with
   | None => None
@@ -329,7 +329,7 @@ Definition match_header (s : bytes) : option (bytes * bytes * bytes) :=
     end
   end.
 
-(* ^([a-zA-Z0-9]+ ?){0,5}$ *)
+(* at most five alphanumeric words, each optionally followed by one space *)
 Fixpoint partial_words_ok (fuel : nat) (l : bytes) : bool :=
   match l with
   | [] => true
